@@ -34,9 +34,16 @@ def r1(R, repo):
       if isinstance(v, ast.Call):
         produced.add(astu.call_name(v))
       elif isinstance(v, ast.Name):
+        # a local bound in several branches stands for each of its definitions
+        alts = [a for a in evid.expand(fl, v, containers=False) if isinstance(a, ast.AST)]
+        for a in alts:
+          if isinstance(a, ast.Call) and astu.call_name(a) in ('NodeDef', 'NodeRef', 'VariableDef', 'Static', 'ArrayAttr'):
+            produced.add(astu.call_name(a))
+          elif isinstance(a, ast.Name) and a.id == 'ARRAY_ATTR':
+            produced.add('ArrayAttr')
         if v.id == 'ARRAY_ATTR':
           produced.add('ArrayAttr')
-        else:
+        elif any(isinstance(a, ast.Call) and astu.call_name(a) not in ('Static', 'ArrayAttr') for a in alts) or len(alts) == 1:
           # the recursive result: NodeDef | NodeRef | VariableDef (return annotation / constructors of the function)
           # (constructed in _graph_flatten itself or in a helper it calls)
           for _f, y in evid.calls_deep(repo, fl, lambda z: astu.call_name(z) in ('NodeDef', 'NodeRef', 'VariableDef')):
